@@ -35,6 +35,9 @@ def run(ctx):
     check_limits(ctx, ctx.repo)
     # "a later call on ordinary input still works": an exception that unwinds through the pipeline (RecursionError translated
     # at the top, or the SQLParseError itself) must not leave a counter, flag or table behind in state that outlives the call
+    from .. import rules_filters as RF
+    ctx.rule('R15.8', 'no fixed-length table is indexed with a quantity that grows with the nesting depth (IndexError is not SQLParseError)', floor=1)
+    RF.check_fixed_tables(ctx, 'R15.8')
     from . import c20
     ctx.rule('R15.7', 'a call that fails leaves nothing behind: no import-time closure cell and no class/module variable is written on the request path', floor=2)
     c20.check_closure_cells(ctx, 'R15.7')
